@@ -19,7 +19,7 @@ STD_STUBS = ["model: std HashMap/HashSet/BTreeMap -> Vec-backed models (kani/sup
 HARNESSES = []
 
 
-def H(prop, mod, name, tier="quick", mode="full", timeout=420, **kw):
+def H(prop, mod, name, tier="quick", mode="full", timeout=900, **kw):
     path, f = MODS[mod]
     d = dict(prop=prop, name=name, path=f"{path}::{name}", file=os.path.join(VERIF, "kani", "harness", f),
              tier=tier, mode=mode, timeout=timeout)
@@ -189,14 +189,14 @@ PROPS["C13"] = dict(
 H("C13", "mapper", "c13_mapper_kernel_nopanic", what="mapper iterate_with_lines never panics/overflows, unrestricted numbers", vars="all numbers 64-bit, frame line", bound="K=2",
   functions=["mapper::iterate_with_lines"], stubs=[])
 
-H("C13", "stacktrace", "c13_classifiers_3", timeout=600, what="parse_frame / parse_throwable never panic, parts are sub-slices; every valid-UTF-8 text of 3 bytes over the delimiter alphabet + a 2-byte character",
+H("C13", "stacktrace", "c13_classifiers_3", timeout=1800, what="parse_frame / parse_throwable never panic, parts are sub-slices; every valid-UTF-8 text of 3 bytes over the delimiter alphabet + a 2-byte character",
   vars="3 bytes", bound="3 bytes", functions=["stacktrace::parse_frame", "stacktrace::parse_throwable"], stubs=["core::slice::memchr::{memchr,memrchr} -> byte loops"])
 H("C13", "stacktrace", "c13_classifiers_5", tier="extra", timeout=1800, what="same, 5 bytes", vars="5 bytes", bound="5 bytes",
   functions=["stacktrace::parse_frame", "stacktrace::parse_throwable"], stubs=["core::slice::memchr::{memchr,memrchr} -> byte loops"])
 H("C13", "stacktrace", "c13_frame_template_6", tier="thorough", timeout=2400, what="`at ` + 6 symbolic bytes + `)`: parse_frame never panics; a returned frame is exactly the pieces of the line",
   vars="6 bytes", bound="10-byte lines of that shape", functions=["stacktrace::parse_frame"], stubs=["core::slice::memchr::{memchr,memrchr} -> byte loops"])
 
-H("C13", "java", "c13_tokenizer_utf8", timeout=1200, what="descriptor tokenizer never panics on `(L`+3 bytes+`V` incl. a 2-byte character (valid UTF-8 only)", vars="3 bytes", bound="6-byte strings of that shape",
+H("C13", "java", "c13_tokenizer_utf8", timeout=2400, what="descriptor tokenizer never panics on `(L`+3 bytes+`V` incl. a 2-byte character (valid UTF-8 only)", vars="3 bytes", bound="6-byte strings of that shape",
   functions=["java::parse_obfuscated_bytecode_signature"], stubs=["core::slice::memchr::{memchr,memrchr} -> byte loops"])
 for _n in ["plain", "foreign_synth"]:
     H("C13", "cache_mod", "c12_kernel_" + _n, timeout=900, what="(shared with C12) cache frame kernel with arbitrary numbers never panics/overflows: what a written cache holds after the writer's u32 narrowing, shape " + _n,
@@ -213,8 +213,8 @@ PROPS["C06"] = dict(
 )
 _c06 = dict(functions=["mapping::parse_proguard_record", "parse_proguard_header", "parse_proguard_field_or_method", "parse_proguard_class", "parse_usize", "parse_until*", "split_line", "consume_leading_newlines"],
             stubs=["core::str::from_utf8 -> from_utf8_model", "char::is_numeric -> is_numeric_model", "memchr/memrchr -> byte loops"])
-H("C06", "mapping", "c06_step_any_3", timeout=900, what="step (a)(b)(c), every slice of 1..3 arbitrary bytes", vars="3 bytes (all 256 values), length", bound="<=3 bytes", **_c06)
-H("C06", "mapping", "c06_step_header_4", timeout=900, what="step, `#` + up to 4 arbitrary bytes", vars="4 bytes, length", bound="<=5 bytes", **_c06)
+H("C06", "mapping", "c06_step_any_3", timeout=2400, what="step (a)(b)(c), every slice of 1..3 arbitrary bytes", vars="3 bytes (all 256 values), length", bound="<=3 bytes", **_c06)
+H("C06", "mapping", "c06_step_header_4", timeout=2400, what="step, `#` + up to 4 arbitrary bytes", vars="4 bytes, length", bound="<=5 bytes", **_c06)
 H("C06", "mapping", "c06_step_sourcefile_3", tier="extra", timeout=3000, what="step, sourceFile JSON prefix + up to 3 arbitrary bytes (unterminated value, terminators inside)", vars="3 bytes, length", bound="33+3 bytes", **_c06)
 H("C06", "mapping", "c06_locality_any_3", tier="extra", timeout=3000, what="locality (d), every 3-byte slice", vars="3 bytes", bound="3 bytes", **_c06)
 H("C06", "mapping", "c06_locality_any_4", tier="extra", timeout=3000, what="locality (d), every 4-byte slice", vars="4 bytes", bound="4 bytes", **_c06)
@@ -258,9 +258,9 @@ PROPS["C16"] = dict(
     assumptions=["memchr/memrchr -> byte loops"],
 )
 _c16 = dict(functions=["java::parse_obfuscated_bytecode_signature", "java::java_base_types"], stubs=["core::slice::memchr::{memchr,memrchr} -> byte loops"], mode="full")
-H("C16", "java", "c16_tokenizer_len3", timeout=900, what="all `(`+2 characters", vars="2 characters", bound="3-character strings", **_c16)
-H("C16", "java", "c16_tokenizer_len4", timeout=900, what="all `(`+3 characters", vars="3 characters", bound="4-character strings", **_c16)
-H("C16", "java", "c16_tokenizer_len5", timeout=1200, what="all `(`+4 characters", vars="4 characters", bound="5-character strings", **_c16)
+H("C16", "java", "c16_tokenizer_len3", timeout=1800, what="all `(`+2 characters", vars="2 characters", bound="3-character strings", **_c16)
+H("C16", "java", "c16_tokenizer_len4", timeout=1800, what="all `(`+3 characters", vars="3 characters", bound="4-character strings", **_c16)
+H("C16", "java", "c16_tokenizer_len5", timeout=2400, what="all `(`+4 characters", vars="4 characters", bound="5-character strings", **_c16)
 H("C16", "java", "c16_tokenizer_utf8_names", tier="thorough", timeout=3600, what="`(L`+2 bytes+`;`+1 byte+`)V` incl. a 2-byte character in the class name: count and return slice", vars="3 bytes", bound="8-byte strings of that shape", **_c16)
 H("C16", "java", "c16_tokenizer_len6", tier="extra", timeout=3600, what="all `(`+5 characters", vars="5 characters", bound="6-character strings", **_c16)
 
@@ -272,10 +272,10 @@ PROPS["C19"] = dict(
     assumptions=["record injection: ProguardMapping::iter() yields the harness's items (kani::stub of mapping::parse_proguard_record)"],
 )
 _c19 = dict(functions=["ProguardMapping::has_line_info", "ProguardMapping::summary", "MappingSummary::new", "ProguardRecordIter::next"], stubs=["mapping::parse_proguard_record -> inject::parse_stub"], mode="full")
-H("C19", "mapping", "c19_folds_3", timeout=600, what="folds == reference, 3 items", vars="kinds/keys/values of 3 items", bound="3 items", **_c19)
-H("C19", "mapping", "c19_folds_5", timeout=900, what="folds == reference, 5 items", vars="kinds/keys/values of 5 items", bound="5 items", **_c19)
+H("C19", "mapping", "c19_folds_3", timeout=1800, what="folds == reference, 3 items", vars="kinds/keys/values of 3 items", bound="3 items", **_c19)
+H("C19", "mapping", "c19_folds_5", timeout=2400, what="folds == reference, 5 items", vars="kinds/keys/values of 5 items", bound="5 items", **_c19)
 H("C19", "mapping", "c19_folds_8", tier="thorough", timeout=2400, what="folds == reference, 8 items", vars="kinds/keys/values of 8 items", bound="8 items", **_c19)
-H("C19", "mapping", "c19_is_valid_window", timeout=1200, what="is_valid == 50-item window rule, 52 items of symbolic kind", vars="52 kinds", bound="52 items",
+H("C19", "mapping", "c19_is_valid_window", timeout=2400, what="is_valid == 50-item window rule, 52 items of symbolic kind", vars="52 kinds", bound="52 items",
   functions=["ProguardMapping::is_valid", "ProguardRecordIter::next"], stubs=["mapping::parse_proguard_record -> inject::parse_stub"], mode="full")
 
 # --------------------------------------------------------------------------- C05
@@ -321,10 +321,10 @@ PROPS["C15"] = dict(
     outside="ProguardCache::write on non-empty mappings (not executable under CBMC, DESIGN.md section 2b): its payload writes are plain write_all calls chained with `?`; more than 12 sink calls",
     assumptions=["sink obeys the io::Write contract: accepts 1..=len bytes per successful call"],
 )
-H("C15", "cache_raw", "c15_write_empty_mapping", timeout=1500, what="ProguardCache::write on the empty record stream with a symbolic sink schedule vs the bytes it delivers to a Vec",
+H("C15", "cache_raw", "c15_write_empty_mapping", timeout=3000, what="ProguardCache::write on the empty record stream with a symbolic sink schedule vs the bytes it delivers to a Vec",
   vars="12 per-call limits, failing call index, interrupted call index", bound="empty mapping (24-byte output), <=12 sink calls",
   functions=["ProguardCache::write", "cache::raw::write_padding", "std::io::Write::write_all"], stubs=["record injection (empty stream)"] + STD_STUBS)
-H("C15", "cache_raw", "c15_padding_unit", timeout=900, what="write_padding with symbolic section length and symbolic sink schedule (per-call acceptance, failing call, interrupted call)",
+H("C15", "cache_raw", "c15_padding_unit", timeout=1800, what="write_padding with symbolic section length and symbolic sink schedule (per-call acceptance, failing call, interrupted call)",
   vars="section length (usize), 12 per-call limits, failing call index, interrupted call index", bound="<=12 sink calls",
   functions=["cache::raw::write_padding", "std::io::Write::write_all"], stubs=[])
 
